@@ -1,5 +1,5 @@
 # C10 — Z-method knees are valid, height-ordered and mutually separated
-import ast, math, sys
+import ast, math, sys, random
 from core import *
 import gen
 
@@ -106,7 +106,10 @@ class C10:
             'equal to (or one ulp from) an observed height difference; x_max in {default, largest x, random}; y_range in {default, '
             '[1,0], own range, widened}; non-trivial = at least two knees returned and at least one other point whose z-score is '
             'not below the lowest z-score among the knees (a candidate that was rejected by a band, a group minimum or the sweep); '
-            'distinct by the whole input; a separate malformed stream has n in 1..3 (code 6, never a violation)')
+            'distinct by the whole input; a separate malformed stream has n in 1..3 (code 6, never a violation); '
+            'same-object stream (one case in 6): one ndarray is filled with a curve A, analysed, overwritten IN PLACE with a sibling curve B '
+            '(same n; new y column, in a third of the cases new x column; same or different dx/dy/dz/x_max/y_range) and analysed again: '
+            'the second result is judged against the model and the z-score oracle of B alone (computed beforehand from a fresh copy)')
     assumptions = ['x are integers below 2^52 (so the dict keys int(x) and the float comparisons of x are exact: evaluated per case as int_ok)',
                    'z_total preconditions evaluated per case: (i) the float schedule 3, 3-dz, ... is <= min z from step K to K+n+2, '
                    '(ii) no point survives its own band filter; a case where one fails is counted outside the domain',
@@ -138,7 +141,33 @@ class C10:
             c['ks'], c['ys'] = c['ks'][:m], c['ys'][:m]
             c['family'] = 'malformed'
             cases.append(c)
+        # same-object stream (one case in ~6): ONE points buffer is filled with curve A and analysed, then refilled IN PLACE
+        # with a sibling curve B (same n; other y column, in a third of the cases other x column too) and analysed again;
+        # the SECOND call is the one that is judged, against the model of B alone
+        rng2 = random.Random(rng.randrange(1 << 30))
+        for k in range(nreg // 5):
+            n = rng2.randint(4, nmax if (tier == 'thorough' and k % 3 == 0) else min(nmax, 18))
+            a = _make(rng2, n, rng2.randrange(10007))
+            b = _make(rng2, n, rng2.randrange(10007))
+            mode = k % 3
+            if mode != 2:                       # the usual buffer reuse: x column written once, y column overwritten
+                b = self._with_ks(rng2, b, a['ks'])
+            if mode == 0:                       # a parameter sweep continued on the next workload: same parameters
+                for key in ('dx', 'dy', 'dz', 'xmax', 'yrange'):
+                    b[key] = a[key]
+            b['prev'] = {key: a[key] for key in ('ks', 'ys', 'dx', 'dy', 'dz', 'xmax', 'yrange')}
+            b['family'] = 'reuse:' + b['family']
+            cases.append(b)
         return cases
+
+    @staticmethod
+    def _with_ks(rng, c, ks):
+        """curve c moved onto the abscissae ks (an explicit x_max is re-drawn near the new largest x)"""
+        c = dict(c)
+        c['ks'] = list(ks)
+        if c.get('xmax'):
+            c['xmax'] = max(1, ks[-1] + rng.choice([0, 1]))
+        return c
 
     # --- running the implementation -------------------------------------------------------------
     @staticmethod
@@ -180,8 +209,23 @@ class C10:
         import numpy as np
         import kneeliverse.zmethod as zm
         c = dict(c)
+        # oracle and model input come from a fresh copy of the judged curve, computed BEFORE the implementation is touched
         c['zs'] = self._zscores(c)
-        pts = self._points(c)
+        prev = c.get('prev')
+        if prev:
+            # one buffer object: curve A analysed first, then overwritten in place with the judged curve B
+            pts = np.empty((len(prev['ks']), 2))
+            pts[:, 0] = [float(k) for k in prev['ks']]
+            pts[:, 1] = [float(y) for y in prev['ys']]
+            try:
+                st0, out0 = call(zm.knees, pts, prev['dx'], prev['dy'], prev['dz'], prev['xmax'], prev['yrange'])
+            except RoundLimit:
+                st0, out0 = 'exc', 'RoundLimit'
+            c['prev_out'] = as_nat_list(out0) if st0 == 'ok' else None
+            pts[:, 0] = [float(k) for k in c['ks']]
+            pts[:, 1] = [float(y) for y in c['ys']]
+        else:
+            pts = self._points(c)
         line = self._body_line(zm)
         count = [0]
         mon = sys.monitoring
@@ -207,6 +251,8 @@ class C10:
                 armed = False
         try:
             st, out = call(zm.knees, pts, c['dx'], c['dy'], c['dz'], c['xmax'], c['yrange'])
+        except RoundLimit:
+            st, out = 'exc', 'RoundLimit'
         finally:
             if armed:
                 mon.set_local_events(tool, code, 0)
@@ -242,7 +288,7 @@ class C10:
         except Exception:
             return None
         if any(zs[i] >= lo for i in range(len(zs)) if i not in out):
-            return case_hash({k: c[k] for k in ('ks', 'ys', 'dx', 'dy', 'dz', 'xmax', 'yrange')})
+            return case_hash({k: c.get(k) for k in ('ks', 'ys', 'dx', 'dy', 'dz', 'xmax', 'yrange', 'prev')})
         return None
 
     def classify(self, c):
@@ -253,6 +299,7 @@ class C10:
                 'x_max': 'default' if not c.get('xmax') else 'given', 'y_range': 'default' if not c.get('yrange') else 'given',
                 'dz': c['dz'], 'tied_z': len(set(zs)) < len(zs),
                 'rounds': 'n/a' if c.get('rounds') is None else min(c['rounds'] // 10 * 10, 300),
+                'stream': 'same-object (2nd call judged)' if c.get('prev') else 'single call',
                 'outcome': c.get('exc') or 'ok'}
 
     def shrink(self, c):
@@ -263,20 +310,32 @@ class C10:
                 if hi - lo >= 4 and hi - lo < n:
                     d = dict(c)
                     d['ks'], d['ys'] = c['ks'][lo:hi], c['ys'][lo:hi]
+                    if c.get('prev'):
+                        d['prev'] = dict(c['prev'], ks=c['prev']['ks'][lo:hi], ys=c['prev']['ys'][lo:hi])
                     out.append(d)
             for key in ('xmax', 'yrange'):
                 if c.get(key):
                     d = dict(c); d[key] = None; out.append(d)
             for d in out:
-                for k in ('zs', 'out', 'rounds', 'exc'):
+                for k in ('zs', 'out', 'rounds', 'exc', 'prev_out'):
                     d.pop(k, None)
             return out
+        prev = c.get('prev')
         for j in range(n):
             if n > 4:
                 d = dict(c)
                 d['ks'] = c['ks'][:j] + c['ks'][j + 1:]
                 d['ys'] = c['ys'][:j] + c['ys'][j + 1:]
+                if prev:
+                    d['prev'] = dict(prev, ks=prev['ks'][:j] + prev['ks'][j + 1:], ys=prev['ys'][:j] + prev['ys'][j + 1:])
                 out.append(d)
+        if prev:
+            d = dict(c); d.pop('prev'); out.append(d)          # does it fail as a single call as well?
+            if prev['ks'] != c['ks']:
+                d = dict(c); d['prev'] = dict(prev, ks=list(c['ks'])); out.append(d)
+            for key, v in (('xmax', None), ('yrange', None), ('dx', c['dx']), ('dy', c['dy']), ('dz', c['dz'])):
+                if prev[key] != v:
+                    d = dict(c); d['prev'] = dict(prev, **{key: v}); out.append(d)
         if c.get('xmax'):
             d = dict(c); d['xmax'] = None; out.append(d)
         if c.get('yrange'):
@@ -289,21 +348,29 @@ class C10:
         if ys2 != c['ys']:
             d = dict(c); d['ys'] = ys2; out.append(d)
         for d in out:
-            for k in ('zs', 'out', 'rounds', 'exc'):
+            for k in ('zs', 'out', 'rounds', 'exc', 'prev_out'):
                 d.pop(k, None)
         return out
 
     def sample(self, c):
-        return {k: c.get(k) for k in ('family', 'ks', 'ys', 'dx', 'dy', 'dz', 'xmax', 'yrange', 'out', 'rounds')}
+        return {k: c.get(k) for k in ('family', 'ks', 'ys', 'dx', 'dy', 'dz', 'xmax', 'yrange', 'out', 'rounds', 'prev') if k != 'prev' or c.get('prev')}
 
     def describe(self, c):
+        prev = c.get('prev')
+        if prev:
+            return ('buf = np.empty((%d, 2)); buf[:] = %s; kneeliverse.zmethod.knees(buf, dx=%r, dy=%r, dz=%r, x_max=%r, y_range=%r)  # first call, returned %s; '
+                    'then IN PLACE buf[:] = %s; kneeliverse.zmethod.knees(buf, dx=%r, dy=%r, dz=%r, x_max=%r, y_range=%r)  # judged call, returned %s after %s rounds%s'
+                    % (len(prev['ks']), [[k, y] for k, y in zip(prev['ks'], prev['ys'])], prev['dx'], prev['dy'], prev['dz'], prev['xmax'], prev['yrange'],
+                       c.get('prev_out'), [[k, y] for k, y in zip(c['ks'], c['ys'])], c['dx'], c['dy'], c['dz'], c.get('xmax'), c.get('yrange'),
+                       c.get('out'), c.get('rounds'), (' (' + c['exc'] + ')') if c.get('exc') else ''))
         return ('kneeliverse.zmethod.knees(np.array(%s, dtype=float), dx=%r, dy=%r, dz=%r, x_max=%r, y_range=%r)  # returned %s after %s rounds%s'
                 % ([[k, y] for k, y in zip(c['ks'], c['ys'])], c['dx'], c['dy'], c['dz'], c.get('xmax'), c.get('yrange'),
                    c.get('out'), c.get('rounds'), (' (' + c['exc'] + ')') if c.get('exc') else ''))
 
 
-class RoundLimit(Exception):
-    """the while loop of getPoints ran more than round_cap times (reported like a time-out: no result)"""
+class RoundLimit(BaseException):
+    """the while loop of getPoints ran more than round_cap times (reported like a time-out: no result).
+    A BaseException, like core.Timeout, so that an `except Exception` in the code under test cannot swallow it."""
 
 
 def as_nat_list(a):
